@@ -91,6 +91,22 @@ class LStar:
         self.world = world
         self.cache = {}
         self.evals = 0
+        # likelihood-profile stub (sim/llproxy.py): the override is by VALUE, not by index -- every row of
+        # every library that holds the nonlinear values of a designated row is forced too
+        ov = (world.config.get("ll_override") or {})
+        keys = []
+        for k, spec in ov.items():
+            b = world.libraries[int(k)].base
+            vals = np.stack([b["P"], b["e"], b["omega"], b["M0"]], axis=1)
+            keys += [vals[int(r)] for r in spec["rows"]]
+        self.forced = {}
+        if keys:
+            keys = np.array(keys)
+            for li, lib in enumerate(world.libraries):
+                b = lib.base
+                vals = np.stack([b["P"], b["e"], b["omega"], b["M0"]], axis=1)
+                m = (vals[:, None, :] == keys[None, :, :]).all(axis=2).any(axis=1)
+                self.forced[li] = set(int(x) for x in np.nonzero(m)[0])
 
     def helper(self, data_idx):
         import thejoker as tj
@@ -122,6 +138,8 @@ class LStar:
             if not done[r]:
                 h = self.helper(data_idx)
                 ll[r] = np.array(h.batch_marginal_ln_likelihood(np.ascontiguousarray(packed[r : r + 1])))[0]
+                if r in self.forced.get(lib_idx, ()):
+                    ll[r] = -np.inf  # likelihood-profile stub (sim/llproxy.py): same override as the system got
                 done[r] = True
                 self.evals += 1
         return ll if rows is None else ll[np.asarray(rows, dtype=int)]
